@@ -114,9 +114,23 @@ def field_prime(world, ev):
 
 
 def curve_d(world, ev):
+    """The curve constant used by the formula functions: the module-level integer constant
+    (other than the field prime) referenced inside the straight-line 4-tuple formulas.
+    Its *value* is an obligation of C12 P4 / C18, not an anchor."""
     m, c = ed_consts(world, ev)
     qn, Q = field_prime(world, ev)
     want = (-121665 * pow(121666, Q - 2, Q)) % Q
+    used = []
+    for name, v in m.env.items():
+        if isinstance(v, FuncV) and ev.policy.ret_shape(v) == 4 and ev.policy.classify(v) == "leaf":
+            for n in ast.walk(v.node):
+                if isinstance(n, ast.Name) and n.id in c and n.id != qn and n.id not in used:
+                    used.append(n.id)
+    for k in used:
+        if c[k] % Q == want:
+            return k, c[k] % Q
+    if used:
+        return used[0], c[used[0]] % Q
     for k, v in c.items():
         if v % Q == want and k != qn:
             return k, v % Q
